@@ -25,3 +25,92 @@ pub fn prop() -> HistProp {
     }
 }
 
+
+// ---------------------------------------------------------------------------------------------------------
+// bounded-exhaustive core: every sequence up to length 3 (quick) / 4 (thorough) over a small alphabet of op instances
+
+use super::hist;
+use crate::gen::Case;
+use crate::ops::Op;
+use crate::run::{self, Block, Report, Tier};
+use crate::vol::VolCfg;
+
+pub fn alphabet() -> Vec<Op> {
+    let cf = |p: &str| Op::CreateFile { via: 0, path: p.into(), keep: 0 };
+    let cd = |p: &str| Op::CreateDir { via: 0, path: p.into(), keep: 0 };
+    let rm = |p: &str| Op::Remove { via: 0, path: p.into() };
+    let mv = |a: &str, b: &str| Op::Rename { via: 0, src: a.into(), dvia: 0, dst: b.into() };
+    vec![
+        cf("a"),
+        cf("A"),
+        cf("d/a"),
+        cf("a:b"),
+        cd("d"),
+        cd("a"),
+        cd("D/b"),
+        rm("a"),
+        rm("d"),
+        rm("d/A"),
+        mv("a", "b"),
+        mv("a", "d/a"),
+        mv("d", "b"),
+        mv("b", "A"),
+        mv("a", "a:b"),
+        mv("d/a", "a"),
+        Op::OpenFile { via: 0, path: "A".into(), keep: 0 },
+        Op::OpenDir { via: 0, path: "b".into(), keep: 0 },
+    ]
+}
+
+pub fn run(tier: Tier, seed: u64) -> i32 {
+    let hp = prop();
+    let mut rep = Report::new(hp.id, tier, seed, hp.level, hp.rule);
+    rep.rule.push_str("; bounded-exhaustive core: EVERY sequence of length <= 3 (quick) / <= 4 (thorough) over an alphabet of 18 op instances (create file/dir, remove, rename/move, open on names a, A, b, d, d/a, D/b and the invalid a:b) on a FAT12 fixed-root, a FAT16 and a FAT32 volume");
+    for a in &hp.assumptions {
+        rep.assume(a);
+    }
+    let kb = hist::known_block(&hp, &mut rep);
+    rep.add(kb);
+    rep.add(hist::regress_block(&hp));
+    let alpha = alphabet();
+    let n = alpha.len() as u64;
+    let maxlen: u32 = tier.pick(3, 4);
+    let mut total = 0u64;
+    for l in 1..=maxlen {
+        total += n.pow(l);
+    }
+    let vols = [VolCfg::from_preset(0), VolCfg::from_preset(8), VolCfg::from_preset(12)];
+    let hp_ref = &hp;
+    let mut b: Block = run::run_indexed("exhaustive_short_sequences", total * 3, |i, blk| {
+        let v = &vols[(i / total) as usize];
+        let mut k = i % total;
+        // decode k into (length, digits)
+        let mut len = 1u32;
+        loop {
+            let c = n.pow(len);
+            if k < c {
+                break;
+            }
+            k -= c;
+            len += 1;
+        }
+        let mut ops = Vec::with_capacity(len as usize);
+        for _ in 0..len {
+            ops.push(alpha[(k % n) as usize].clone());
+            k /= n;
+        }
+        let case = Case { vol: v.clone(), ops };
+        let out = hist::eval_case(hp_ref, &case);
+        blk.record(&out, || serde_json::to_value(&case).unwrap());
+        out.violation.map(|m| run::Failure { message: m, case: serde_json::to_value(&case).unwrap(), kind: "history".into() })
+    });
+    b.exhaustive = true;
+    rep.add(b);
+    if !rep.failed() {
+        rep.add(hist::random_block(&hp, "random_histories", seed, tier.pick(hp.quick_cases, hp.thorough_cases)));
+    }
+    if !rep.failed() && tier == Tier::Thorough {
+        rep.add(run::fuzz_block("ops", 400_000, seed, 1024));
+    }
+    rep.finish()
+}
